@@ -109,11 +109,11 @@ MIN_COUNTERS = {  # about half of what seed 0 observes
                  "problem_backup_exports": 3000, "cache_instances_compared": 960, "cache_continued_after_reopen": 320,
                  "directed_cases": 11},
 }
-SHARD_TIMEOUT = {"quick": 400, "thorough": 2400}
+SHARD_TIMEOUT = {"quick": 400, "thorough": 3000}
 
 SIZES = {
-    "quick": {"n_db": 24, "n_ds": 16, "n_pb": 6, "n_cache": 4, "budget_s": 250},
-    "thorough": {"n_db": 450, "n_ds": 150, "n_pb": 60, "n_cache": 40, "budget_s": 1800},
+    "quick": {"n_db": 70, "n_ds": 40, "n_pb": 14, "n_cache": 10, "budget_s": 300},
+    "thorough": {"n_db": 2200, "n_ds": 700, "n_pb": 260, "n_cache": 180, "budget_s": 2400},
 }
 
 
